@@ -950,6 +950,7 @@ def _formatter_tabulate(ctx, thorough: bool) -> None:
             # every token that from_format reads came back with its value (in every locale): which arm of which method stores it is then not a property
             ctx.established(("TABLES.parse-arm", "TABLES.parse-entry", "TABLES.slots"), "token/", "ROUNDTRIP.tabulated")
             ctx.established(("TABLES.slots",), "Formatter.parse", "ROUNDTRIP.tabulated")
+            ctx.established(("MERIDIEM",), "parse/meridiem", "ROUNDTRIP.tabulated")      # (12-hour formats with A come back for hours 0, 11, 12, 13, 23 among the values)
         # 4. absent date fields come from `now`; no match -> ValueError
         wrong = []
         for fmt in ("HH:mm:ss", "h:mm A", "H", "HH:mm:ss.SSS"):
